@@ -110,15 +110,26 @@ UpdDiff(U) ==
 Expected == OciFold(ToOci(orig), AdjsOf(applied))
 
 ObsComb == Core(E.comb, DOMAIN EmptyAdjust)
+\* device cgroup allow rules "type|major|minor": the devices the final container got from plugins have theirs after
+\* either application (the rule of a device that a later plugin removed again is a side effect the property does not
+\* speak about: the sequential application leaves it behind, the combined one never adds it - not compared)
+SepPosA(v) == SelectSeq([i \in 1..Len(v) |-> i], LAMBDA i : SubSeq(v, i, i) = "|")
+Prefix3A(v) == IF Len(SepPosA(v)) >= 3 THEN SubSeq(v, 1, SepPosA(v)[3] - 1) ELSE v
+FinalRules == {Prefix3A(ObsComb.dev[i].v) : i \in {j \in DOMAIN ObsComb.dev : ~IsMarked(ObsComb.dev[j].k)}}
+RulesOf(x) == {x.devc[i] : i \in DOMAIN x.devc}
 EndLabels ==
   (IF ~UpdListOK(E.updates) THEN {"C05-updates"} ELSE {})
   \cup (IF kind # "create" THEN {} ELSE
           (IF E.gerr # "" THEN {"C03-generator-error"} ELSE {})
      \cup (IF NriApply(orig, ObsComb) # cont THEN {"C04-combined"} ELSE {})
-     \cup (IF Core(E.fcomb, OciFields) # Expected THEN {"C03-combined"} ELSE {})
-     \cup (IF Core(E.fseq, OciFields) # Expected THEN {"C03-sequential"} ELSE {})
+     \cup (IF NoSwap(Core(E.fcomb, OciFields)) # NoSwap(Expected) \/ ~SwapOK(E.fcomb, Expected, ToOci(orig))
+           THEN {"C03-combined"} ELSE {})
+     \cup (IF NoSwap(Core(E.fseq, OciFields)) # NoSwap(Expected) \/ ~SwapOK(E.fseq, Expected, ToOci(orig))
+              \/ SwapOf(E.fseq.res) # SwapOf(E.fcomb.res)
+           THEN {"C03-sequential"} ELSE {})
      \* the same container includes the order of its mounts (the runtime lists its own mounts in either order)
-     \cup (IF E.fcomb.mord # E.fseq.mord THEN {"C03-mount-order"} ELSE {}))
+     \cup (IF E.fcomb.mord # E.fseq.mord THEN {"C03-mount-order"} ELSE {})
+     \cup (IF RulesOf(E.fcomb) # FinalRules \/ ~(FinalRules \subseteq RulesOf(E.fseq)) THEN {"C03-device-rules"} ELSE {}))
 EndDetail ==
   IF kind # "create" THEN <<{}, {}, {}, UpdDiff(E.updates)>> ELSE
   <<Diff(NriApply(orig, ObsComb), cont, ContFields), Diff(E.fcomb, Expected, OciFields),
